@@ -92,14 +92,16 @@ def docs(ir):
 @st.composite
 def case_strategy(draw):
     long_doc = draw(st.booleans())
-    irs = [draw(gen_ir.interface("common", min_params=1, max_params=4, returns=False, min_literal=2, doc=gen_ir.boundary_descr() if long_doc else gen_ir.descr)) for _ in range(3)]
+    # half of the cases add List[..] / Union[..] / nested annotations (required parameters of a non-simple type)
+    profile = draw(st.sampled_from(["common", "executable"]))
+    irs = [draw(gen_ir.interface(profile, min_params=1, max_params=4, returns=False, min_literal=2, doc=gen_ir.boundary_descr() if long_doc else gen_ir.descr)) for _ in range(3)]
     same = draw(st.integers(0, 3)) == 0
     if same:
         irs = [irs[0]] * 3
     truth = draw(st.sampled_from(KINDS))
     states = {k: draw(st.sampled_from(["present", "present", "missing", "empty"])) for k in KINDS}
     states[truth] = "present"
-    return {"long_doc": long_doc, "irs": irs, "same": same, "truth": truth, "states": states, "method": draw(st.booleans()), "runs": draw(st.integers(1, 3)), "nww": draw(st.booleans())}
+    return {"long_doc": long_doc, "profile": profile, "irs": irs, "same": same, "truth": truth, "states": states, "method": draw(st.booleans()), "runs": draw(st.integers(1, 3)), "nww": draw(st.booleans())}
 
 
 def strategy(ctx):
@@ -117,6 +119,7 @@ def oracle(case):
         r.label("already-equal")
     if case.get("long_doc"):
         r.label("descriptions-across-wrap-column")
+    r.label("profile:" + case.get("profile", "common"))
     d = tempfile.mkdtemp(prefix="c12_", dir="/dev/shm" if os.path.isdir("/dev/shm") else None)
     try:
         paths = {k: os.path.join(d, k[0] + ".py") for k in KINDS}
